@@ -338,6 +338,11 @@ func (r *Report) Finish() int {
 		sv, sweepCov = r.runSweep(r.AllowFile)
 		violations += sv
 	}
+	if r.Sweep == "lockset" {
+		var sv int
+		sv, sweepCov = r.runLockset(r.AllowFile)
+		violations += sv
+	}
 	if r.Sweep == "aliveguard" {
 		var sv int
 		sv, sweepCov = r.runAliveCheck(r.AllowFile)
@@ -589,11 +594,15 @@ func runReplayFile(L *Loaded, file string) (bool, string) {
 	if m := regexp.MustCompile(`func (Test\w+)\(`).FindSubmatch(data); m != nil {
 		name = string(m[1])
 	}
-	cmd := exec.Command("bash", "-c", fmt.Sprintf("ulimit -v 8000000; cd %s && go test -overlay %s -vet=off -count=1 -timeout 120s -run '^%s$' ./ecs", L.Repo, ovFile, name))
+	race, limit := "", "ulimit -v 8000000; "
+	if strings.Contains(string(data), "//verif:race") {
+		race, limit = "-race ", "" // the race detector reserves a large virtual address range
+	}
+	cmd := exec.Command("bash", "-c", fmt.Sprintf("%scd %s && go test %s-overlay %s -vet=off -count=1 -timeout 300s -run '^%s$' ./ecs", limit, L.Repo, race, ovFile, name))
 	cmd.Env = replayEnv()
 	out, err := cmd.CombinedOutput()
 	s := string(out)
-	if err != nil && (strings.Contains(s, "--- FAIL") || strings.Contains(s, "panic:") || strings.Contains(s, "FAIL")) && !strings.Contains(s, "[build failed]") && !strings.Contains(s, "[setup failed]") {
+	if err != nil && (strings.Contains(s, "--- FAIL") || strings.Contains(s, "panic:") || strings.Contains(s, "FAIL") || strings.Contains(s, "DATA RACE")) && !strings.Contains(s, "[build failed]") && !strings.Contains(s, "[setup failed]") {
 		return true, s
 	}
 	return false, s
